@@ -14,6 +14,7 @@ mod c07;
 mod c08;
 mod c09;
 mod c10;
+mod c11;
 mod c12;
 mod c13;
 mod c14;
@@ -73,6 +74,7 @@ fn main() {
         "c08" => c08::run(opts),
         "c09" => c09::run(opts),
         "c10" => c10::run(opts),
+        "c11" => c11::run(opts),
         "c12" => c12::run(opts),
         "c13" => c13::run(opts),
         "c14" => c14::run(opts),
